@@ -19,8 +19,12 @@
 package dag
 
 import (
+	"bytes"
 	"encoding/base64"
+	"encoding/json"
+	"errors"
 	"fmt"
+	"math"
 	"time"
 
 	"github.com/lestrrat-go/jwx/v2/jwa"
@@ -34,6 +38,10 @@ import (
 func ParseTransaction(input []byte) (Transaction, error) {
 	message, err := jws.Parse(input)
 	if err != nil {
+		return nil, fmt.Errorf(unableToParseTransactionErrFmt, err)
+	}
+	// the JWS library is lenient in what it parses, see validateSerialization
+	if err := validateSerialization(input); err != nil {
 		return nil, fmt.Errorf(unableToParseTransactionErrFmt, err)
 	}
 	if len(message.Signatures()) == 0 {
@@ -65,6 +73,28 @@ func ParseTransaction(input []byte) (Transaction, error) {
 		}
 	}
 	return result, nil
+}
+
+// validateSerialization checks that the input is the canonical JWS compact serialization of a transaction.
+// The reference of a transaction is the hash of these bytes. If the same signed content could be written down in more than
+// one way (JSON serialization, white space, padded or otherwise non-canonical base64, data trailing the protected header),
+// anybody could derive any number of new, validly signed transactions from an existing one.
+func validateSerialization(input []byte) error {
+	segments := bytes.Split(input, []byte{'.'})
+	if len(segments) != 3 {
+		return errors.New("not a JWS in compact serialization")
+	}
+	for i, segment := range segments {
+		decoded, err := base64.RawURLEncoding.DecodeString(string(segment))
+		if err != nil || base64.RawURLEncoding.EncodeToString(decoded) != string(segment) {
+			return fmt.Errorf("JWS segment %d is not canonical base64url", i+1)
+		}
+		// RFC7515 5.2: the protected header must be a completely valid JSON object (nothing before or after it)
+		if i == 0 && (len(decoded) < 2 || decoded[0] != '{' || decoded[len(decoded)-1] != '}' || !json.Valid(decoded)) {
+			return errors.New("JWS protected header is not a JSON object")
+		}
+	}
+	return nil
 }
 
 func transactionValidationError(format string, args ...interface{}) error {
@@ -208,6 +238,9 @@ func parseLamportClock(transaction *transaction, headers jws.Headers, _ *jws.Mes
 		// won't happen since it's a critical header, but we need to check the cast anyway
 		return transactionValidationError(missingHeaderErrFmt, lamportClockHeader)
 	} else if lcAsFloat64, ok := lcAsInterf.(float64); !ok {
+		return transactionValidationError(invalidHeaderErrFmt, lamportClockHeader)
+	} else if lcAsFloat64 < 0 || lcAsFloat64 > math.MaxUint32 || lcAsFloat64 != math.Trunc(lcAsFloat64) {
+		// must be an integer that fits the clock's type: a float64 -> uint32 conversion truncates fractions and wraps out-of-range values
 		return transactionValidationError(invalidHeaderErrFmt, lamportClockHeader)
 	} else {
 		transaction.lamportClock = uint32(lcAsFloat64)
